@@ -551,7 +551,8 @@ impl<T: SerializableType> SerializableType for Vec<T> {
     
     fn deserialize<I: DataInput>(input: &mut I) -> Result<Self> {
         let len = input.read_u32()? as usize;
-        let mut vec = Vec::with_capacity(len);
+        // `len` is untrusted input: reserve a bounded amount, the vector grows as elements decode
+        let mut vec = Vec::with_capacity(len.min(1024));
         for _ in 0..len {
             vec.push(T::deserialize(input)?);
         }
